@@ -26,6 +26,7 @@ pub fn verify_metadata_context(global: &[SideMetadataSpec], local: &[SideMetadat
         global: global.to_vec(),
         local: local.to_vec(),
     };
+    super::sanity::verif_reset_after_panic();
     let mut sanity = SideMetadataSanity::new();
     sanity.verify_metadata_context("verif", &ctx);
 }
